@@ -1010,7 +1010,9 @@ def compare_lir_wat(name, lir, mod, bounds, timeout_s=20):
     t0 = time.time()
     tb = (bounds or {}).get("seconds")
     if tb:
-        exA.deadline = exB.deadline = t0 + tb
+        # the reference side may use at most half of the time budget, so that the other side always gets to run
+        exA.deadline = t0 + tb / 2.0
+        exB.deadline = t0 + tb
     try:
         pathsA = exA.run(name, args)
     except Unsupported as e:
@@ -1072,5 +1074,9 @@ def compare_lir_wat(name, lir, mod, bounds, timeout_s=20):
             if r == z3.unknown:
                 res["status"] = "inconclusive"
                 res["why"] = "solver unknown on an equivalence query"
+    if res["status"] == "equal" and res["pairs"] == 0 and (res["bound_ref"] or res["bound_new"]):
+        # every path of one side ran into a bound: nothing was compared, which is not "equal"
+        res["status"] = "skipped"
+        res["why"] = "budget: no pair of paths was completed within the bounds (%d / %d paths cut)" % (res["bound_ref"], res["bound_new"])
     res["wall_s"] = round(time.time() - t0, 2)
     return res
